@@ -29,6 +29,7 @@ import (
 	"fmt"
 	"io"
 	"net/http"
+	"os"
 	"path/filepath"
 	"reflect"
 	"sort"
@@ -48,6 +49,7 @@ import (
 	"github.com/algorand/go-algorand/data"
 	"github.com/algorand/go-algorand/data/basics"
 	"github.com/algorand/go-algorand/data/bookkeeping"
+	"github.com/algorand/go-algorand/data/committee"
 	"github.com/algorand/go-algorand/data/transactions"
 	"github.com/algorand/go-algorand/ledger/ledgercore"
 	"github.com/algorand/go-algorand/logging"
@@ -64,6 +66,10 @@ func c30Logger() logging.Logger {
 	lg := logging.NewLogger()
 	lg.SetOutput(io.Discard)
 	lg.SetLevel(logging.Error)
+	if os.Getenv("VERIF_C30_DEBUG") != "" {
+		lg.SetOutput(os.Stdout)
+		lg.SetLevel(logging.Warn)
+	}
 	return lg
 }
 
@@ -201,16 +207,19 @@ func c30BuildChain(c *kit.Ctx, tip int) *c30Chain {
 				return nil
 			}
 		}
-		ub, err := ev.GenerateBlock(nil)
+		proposer := users[r.Intn(len(users))]
+		ub, err := ev.GenerateBlock([]basics.Address{proposer})
 		if err != nil {
 			c.Harness("GenerateBlock: %v", err)
 			return nil
 		}
-		vb := ledgercore.MakeValidatedBlock(ub.UnfinishedBlock(), ub.UnfinishedDeltas())
-		blk := vb.Block()
+		// a finished block as agreement would propose it (payouts are enabled: a proposer is mandatory)
+		var seed committee.Seed
+		copy(seed[:], r.Bytes(32))
+		blk := ub.FinishBlock(seed, proposer, false)
 		cert := c30MakeCert(r, &blk)
-		if err := ch.remote.AddValidatedBlock(vb, cert); err != nil {
-			c.Harness("AddValidatedBlock: %v", err)
+		if err := ch.remote.AddBlock(blk, cert); err != nil {
+			c.Harness("remote AddBlock: %v", err)
 			return nil
 		}
 		ch.add(blk, cert)
@@ -355,8 +364,10 @@ func (m *c30Monitor) onWrite(path string, blk *bookkeeping.Block, cert *agreemen
 		}
 		if only["write-payset-mismatch"] || only["write-not-honest-block"] || only["write-wrong-certificate"] {
 			m.c.Count("sanity_bogus_writes_seen", 1)
+			m.c.Distinct(fmt.Sprintf("sanity-bogus|%s|%v", path, keys))
 			return errC30Refused // keep the ledger honest so the case can go on
 		}
+		m.c.Distinct(fmt.Sprintf("sanity-ok|%s|%s", path, m.adv.kindsFor(blk.Round())))
 		return do()
 	}
 	if len(keys) > 0 {
